@@ -37,7 +37,8 @@ RULE = ("edit histories of 5..40 API operations (set name/summary/description, c
         "description) on scratch copies "
         "of corpus models [quick: writemodel + one history on the 5.0 test model; thorough: also 5.2/6.0, library, pvmt], "
         "strings over an alphabet of every escapable character, TAB LF CR, ]]>, white-space-only strings, U+0085/A0/2028, "
-        "astral code points and random XML-legal code points; a save + fresh reload after each operation with "
+        "astral code points and random XML-legal code points; directed: every boundary string in a specification body, "
+        "one attribute of 10.5 M characters, 300 nested functions; a save + fresh reload after each operation with "
         "probability 1/4 and at the end (up to 6 save-edit rounds per history). distinct = distinct (model, seed, history "
         "index, save index); non-trivial = at least one operation succeeded since the previous save")
 ASSUMPTIONS = [
@@ -108,7 +109,15 @@ def canon(e):
     if not isinstance(e.tag, str):
         return ("#" + getattr(e.tag, "__name__", "node"), e.text, None, None, [], {})
     own = {k: v for k, v in e.nsmap.items() if e.getparent() is None or e.getparent().nsmap.get(k) != v}
-    return (e.tag, dict(e.attrib), e.text or None, e.tail or None, [canon(c) for c in e], own)
+    # white space between child elements is layout, not information (libxml2 keeps indentation runs longer than 300
+    # characters - nesting deeper than ~148 - as text even with remove_blank_text; the writer ignores them again)
+    text = e.text or None
+    if text is not None and len(e) and not text.strip(" \t\r\n"):
+        text = None
+    tail = e.tail or None
+    if tail is not None and not tail.strip(" \t\r\n"):
+        tail = None
+    return (e.tag, dict(e.attrib), text, tail, [canon(c) for c in e], own)
 
 
 def diff(a, b, path=""):
@@ -225,7 +234,7 @@ def check_type_namespaces(model, path: pathlib.Path, out: Outcome, replay: dict,
     for name in frag_roots(model):
         if pathlib.PurePosixPath(name).suffix not in core.SEMANTIC_EXTS:
             continue
-        root = etree.parse(str(path.parent / name)).getroot()
+        root = etree.parse(str(path.parent / name), etree.XMLParser(huge_tree=True)).getroot()
         for e in root.iter():
             if not isinstance(e.tag, str):
                 continue
@@ -317,6 +326,28 @@ class History:
             self.ok_since_save += 1
         except Exception as e:  # noqa: BLE001
             self.out.hit("refused:" + type(e).__name__)
+
+    def all_spec_boundaries(self):
+        """directed: every boundary string (']]>' among them) goes into the body of a different specification"""
+        owners = []
+        for o in self.objs():
+            try:
+                o.specification  # noqa: B018
+                owners.append(o)
+            except Exception:  # noqa: BLE001
+                pass
+        for i, s in enumerate(self.BOUNDARY):
+            if not owners:
+                return
+            o = owners[i % len(owners)]
+            try:
+                o.specification["Python" if i < len(owners) else f"L{i}"] = s
+                self.touched.add(o.uuid)
+                self.out.hit("op:spec-boundary")
+                self.log.append({"op": "set specification (boundary)", "arg": s})
+                self.ok_since_save += 1
+            except Exception as e:  # noqa: BLE001
+                self.out.hit("refused:" + type(e).__name__)
 
     def step(self):
         rng, m = self.rng, self.m
@@ -442,8 +473,9 @@ def load(capellambse, path: pathlib.Path):
     return capellambse.MelodyModel(str(path), resources=res)
 
 
-def save_and_compare(h: History, path: pathlib.Path, capellambse, key, cases: list) -> bool:
-    """save, reload into a fresh model, compare trees and queries; queue the model requests. False = stop history."""
+def save_and_compare(h: History, path: pathlib.Path, capellambse, key, cases: list, model_side: bool = True) -> bool:
+    """save, reload into a fresh model, compare trees and queries; queue the model requests (unless `model_side` is
+    off: the 10 MB attribute of the size-limit history is not sent through the Lean driver). False = stop history."""
     out, m = h.out, h.m
     etree, exs, core = c01.impl()
     replay = {"kind": "history", "model": str(path.relative_to(h.ctx.scratch / "c02").parts[1:] and pathlib.Path(*path.relative_to(h.ctx.scratch / "c02").parts[1:])),
@@ -455,7 +487,6 @@ def save_and_compare(h: History, path: pathlib.Path, capellambse, key, cases: li
         out.find(f"MelodyModel.save|raises|{type(e).__name__}", f"save() after {len(h.log)} API operations raised {type(e).__name__}: {e}", replay)
         return False
     mem = {k: canon(v) for k, v in frag_roots(m).items()}
-    check_type_namespaces(m, path, out, replay, h.label)
     q_mem = queries(m, touched=h.touched)
     out.case(key, {"model": h.label, "ops": len(h.log), "last": last} if len(out.samples) < 4 else None, h.ok_since_save > 0)
     out.traces_validated += 1
@@ -466,6 +497,7 @@ def save_and_compare(h: History, path: pathlib.Path, capellambse, key, cases: li
         out.find(f"MelodyModel.save|reload-fails|{type(e).__name__}",
                  f"the model saved after {len(h.log)} API operations (last: {last}) cannot be loaded: {type(e).__name__}: {str(e)[:200]}", replay)
         return False
+    check_type_namespaces(m, path, out, replay, h.label)  # after the reload: the files are known to be parseable
     roots2 = frag_roots(m2)
     for name, tree in mem.items():
         d = diff(tree, canon(roots2[name])) if name in roots2 else ("fragment-missing", name)
@@ -482,7 +514,7 @@ def save_and_compare(h: History, path: pathlib.Path, capellambse, key, cases: li
                  f"{h.label}: an API query answers differently after save + reload: {bad!r}"[:600],
                  {**replay, "observed": "query:" + cls})
     # ---- model side: every written fragment
-    for name, root in frag_roots(m).items():
+    for name, root in (frag_roots(m).items() if model_side else ()):
         p = path.parent / name
         kind = c01.frag_kind(core, pathlib.PurePosixPath(name))
         flags: set = set()
@@ -507,6 +539,36 @@ def save_and_compare(h: History, path: pathlib.Path, capellambse, key, cases: li
                           ("reload.parse:" + kind, {"file": name}, {"doc": c01.export_doc(roots2[name], set())})))
     h._objs = None  # save() replaced fragment roots (update_namespaces); wrappers of old roots are stale
     return True
+
+
+def directed_limits(ctx: Ctx, out: Outcome, capellambse, cases: list) -> None:
+    """Two directed histories per run against the parser's built-in size limits (libxml2 without `huge_tree` refuses
+    text/attribute nodes above 10,000,000 characters and nesting deeper than 256): (1) one attribute value of 10.5 M
+    characters - e.g. a description with an inline data: image -, (2) 300 nested functions. Each: one save + reload."""
+    aird = common.REPO / "tests" / "data" / "writemodel" / "WriteTestModel.aird"
+    label = str(aird.relative_to(common.REPO / "tests" / "data"))
+    for what in ("long-attribute", "deep-nesting"):
+        path = fresh_copy(ctx, aird, "limits-" + what)
+        m = load(capellambse, path)
+        h = History(ctx, out, m, label + " [" + what + "]")
+        try:
+            fn = m.la.root_function.functions.create(name=what)
+            if what == "long-attribute":
+                fn.name = "x" * 10_500_000
+                h.log.append({"op": "set LogicalFunction.name", "arg": "'x' * 10_500_000"})
+            else:
+                for i in range(300):
+                    fn = fn.functions.create(name=f"n{i}")
+                h.log.append({"op": "create 300 nested LogicalFunctions", "arg": ""})
+            h.touched.add(fn.uuid)
+            h.ok_since_save = 1
+            out.hit("op:limit-" + what)
+        except Exception as e:  # noqa: BLE001
+            out.hit("refused:" + type(e).__name__)
+            shutil.rmtree(path.parent.parent, ignore_errors=True)
+            continue
+        save_and_compare(h, path, capellambse, (label, ctx.seed, "limits", what), cases, model_side=False)
+        shutil.rmtree(path.parent.parent, ignore_errors=True)
 
 
 def tree_edit_cases(ctx: Ctx, out: Outcome, cases: list):
@@ -607,7 +669,13 @@ def run(ctx: Ctx) -> Outcome:
                 raise common.InfraError(f"cannot load corpus model {label}: {e!r}") from e
             h = History(ctx, out, m, label)
             saves = 0
-            # directed part: two boundary strings per history, each followed by a save + reload
+            # directed part: (first history of a model) every boundary string in a specification body, one save;
+            # then two boundary strings per history, each followed by a save + reload
+            if hi == 0:
+                h.all_spec_boundaries()
+                if h.ok_since_save and not save_and_compare(h, path, capellambse, (label, ctx.seed, hi, "spec-boundaries"), cases):
+                    shutil.rmtree(path.parent.parent, ignore_errors=True)
+                    continue
             for b in range(2):
                 h.boundary_step(2 * hi + b + ctx.seed)
                 if not save_and_compare(h, path, capellambse, (label, ctx.seed, hi, f"boundary{b}"), cases):
@@ -621,6 +689,7 @@ def run(ctx: Ctx) -> Outcome:
             else:
                 save_and_compare(h, path, capellambse, (label, ctx.seed, hi, "final"), cases)
             shutil.rmtree(path.parent.parent, ignore_errors=True)
+    directed_limits(ctx, out, capellambse, cases)
     tree_edit_cases(ctx, out, cases)
 
     if os.environ.get("VERIF_NO_MODEL") != "1":
